@@ -4,6 +4,7 @@ result events for real TestCase / subtest / StartUpFailure objects) and with Ele
 import os
 import re
 import shutil
+import traceback
 import types
 import unittest
 import xml.dom.minidom
@@ -51,6 +52,31 @@ class Exc(Exception):
     pass
 
 
+_TB_SEQ = [0]
+
+
+def make_tb(exc, special, idx):
+    """raise `exc` from a frame whose file name, function name and source line carry the text `special` (a test
+    directory, a generated function, a string literal on the raising line): the traceback the wrapper formats"""
+    import linecache
+    ns = {}
+    exec(compile("def f(e):\n    raise e\n", "<xml-harness>", "exec"), ns)
+    f = ns["f"]
+    # (a source file is decoded text and a path is encodable: no lone surrogates in those two)
+    enc = special.encode("utf-8", "ignore").decode("utf-8")
+    _TB_SEQ[0] += 1
+    fname = "/no/such/dir%s/test_%d_%d.py" % (enc.replace("\x00", ""), idx, _TB_SEQ[0])
+    f.__code__ = f.__code__.replace(co_filename=fname, co_name="test_" + special)
+    lines = ["def f(e):\n", "    raise e  # '%s'\n" % enc.replace("\n", " ").replace("\r", " ")]
+    linecache.cache[fname] = (sum(map(len, lines)), None, lines, fname)
+    try:
+        f(exc)
+    except Exc as e:
+        return e.__traceback__.tb_next
+    finally:
+        pass
+
+
 def run_direct(ctx, hist, idx):
     """hist: list of events {obj: [...], kind, msg}.  Returns (files dict name->text, error)"""
     from zope.testrunner.find import StartUpFailure
@@ -83,10 +109,11 @@ def run_direct(ctx, hist, idx):
             message = etype = text = ""
             if ev["kind"] != "success":
                 exc = Exc(ev["msg"])
-                exc_info = (Exc, exc, None)
+                tb = make_tb(exc, ev["tb"], idx) if ev.get("tb") is not None else None
+                exc_info = (Exc, exc, tb)
                 message = str(exc).split("\n")[0]
                 etype = str(Exc)
-                text = str(exc) + "\n\n" + ""
+                text = str(exc) + "\n\n" + "".join(traceback.format_tb(tb))
             if ev["kind"] == "success":
                 w.test_success(test, 0)
             elif ev["kind"] == "failure":
@@ -179,6 +206,7 @@ def gen_hist(rng):
         k = rng.random()
         kind = rng.choice(["success", "failure", "error"])
         msg = gen_text(rng, long=rng.random() < 0.02)
+        tbtext = gen_text(rng) if rng.random() < 0.5 else None
         if k < 0.12:
             hist.append({"obj": ["startup", rng.choice(["broken.mod", "pkg.bad"])], "kind": "error", "msg": msg})
         elif k < 0.22:
@@ -191,6 +219,8 @@ def gen_hist(rng):
             hist.append({"obj": ["sub", m, c, meth, gen_text(rng)], "kind": kind, "msg": msg})
         else:
             hist.append({"obj": ["unit", m, c, meth], "kind": kind, "msg": msg})
+        if kind != "success":
+            hist[-1]["tb"] = tbtext
     return hist
 
 
@@ -202,6 +232,9 @@ def run(ctx):
     for sp in SPECIAL:
         hists.append([{"obj": ["unit", "m", "T", "test_a"], "kind": "failure", "msg": sp}])
         hists.append([{"obj": ["sub", "m", "T", "test_a", sp], "kind": "error", "msg": "x" + sp + "y"}])
+        # ... and in the traceback (file name, function name, source line of the raising frame)
+        hists.append([{"obj": ["unit", "m", "T", "test_a"], "kind": ("failure", "error")[len(hists) % 2], "msg": "plain",
+                       "tb": sp}])
     reals = [run_direct(ctx, h, i) for i, h in enumerate(hists)]
     queries = []
     for (files, err, mev) in reals:
@@ -215,7 +248,8 @@ def run(ctx):
                         "suite_time": [ord(c) for c in "0.0"]})
     answers = ctx.driver.batch(queries)
     for hist, (files, err, mev), ans in zip(hists, reals, answers):
-        case = {"history": [{"obj": e["obj"], "kind": e["kind"], "msg": e["msg"][:200].encode("unicode_escape").decode()}
+        case = {"history": [{"obj": e["obj"], "kind": e["kind"], "msg": e["msg"][:200].encode("unicode_escape").decode(),
+                             "tb": None if e.get("tb") is None else e["tb"].encode("unicode_escape").decode()}
                             for e in hist], "error": err, "files": {k: v[:1500] for k, v in files.items()}}
         special = any(any(ord(ch) > 127 or ch in "<>&\"'\r\n\t" or ord(ch) < 32 for ch in e["msg"]) for e in hist)
         ctx.count(repr(hist)[:5000], nontrivial=special and any(e["kind"] != "success" for e in hist),
